@@ -226,3 +226,18 @@ pub proof fn pf_paren_untyped(args: &SyntaxNode)
 /// the document `convert_expr` yields is a function of the context it is given and of the node (C17; used to state that a producer
 /// passes on the context the engine hands it -- e.g. code mode directly after a `#` -- instead of one captured from outside)
 pub uninterp spec fn expr_doc_s(ctx: Context, n: &SyntaxNode) -> DocV;
+
+/// PF14: a `#` is directly followed by the expression it introduces
+#[verifier::opaque]
+pub open spec fn hash_followed(ch: Seq<&SyntaxNode>) -> bool {
+    forall|i: int, j: int| 0 <= i < ch.len() && j == i + 1 && (#[trigger] ch[i]).kind_s() == SyntaxKind::Hash ==> j < ch.len() && ast::expr_kind((#[trigger] ch[j]).kind_s())
+}
+#[verifier::external_body]
+pub proof fn pf_hash_followed(n: &SyntaxNode)
+    requires tree_wf(n),
+    ensures hash_followed(n.children_s()), n.children_s().len() > 0 ==> n.children_s().last().kind_s() != SyntaxKind::Hash,
+{}
+pub proof fn lemma_hash_followed_at(ch: Seq<&SyntaxNode>, i: int)
+    requires hash_followed(ch), 0 <= i < ch.len(), ch[i].kind_s() == SyntaxKind::Hash,
+    ensures i + 1 < ch.len(), ast::expr_kind(ch[i + 1].kind_s()),
+{ reveal(hash_followed); }
